@@ -36,6 +36,9 @@ def run(ctx: Ctx):
 
     no_shared_writes(ctx, "no-shared-write")
     deviation_form(ctx)
+    from .common import generic_lints
+
+    generic_lints(ctx)
 
 
 def strand(ctx: Ctx):
